@@ -10,6 +10,12 @@ Sub-checks
   fold_list       (d1) convert_to_folded_model: which layers are folded,
                   BN-free model predictions
   quantize_fold   (d2) model_quantize(enable_bn_folding=True) + weight transfer
+  history         step lists on ONE folded model instance (call,
+                  get_folded_weights, unfold_model, model_save_quantized_weights,
+                  set_weights with the same iteration, assign to single
+                  variables): every observation must hold for the CURRENT
+                  parameters; "stale" marks results equal to the folded
+                  weights of an earlier parameter set
 """
 import os
 import re
@@ -30,7 +36,14 @@ RULE = ("layer cases = (QConv2DBatchnorm | QDepthwiseConv2DBatchnorm) x "
         "cases = small DAGs (chain, two branches merged by add/concat, "
         "shared conv output) of folded layers (unfold_model) or stock "
         "conv/depthwise + BN layers (convert_to_folded_model, "
-        "model_quantize(enable_bn_folding=True)). Non-trivial = the oracle "
+        "model_quantize(enable_bn_folding=True)). History cases = one "
+        "folded layer in a functional model + 2..6 (10) steps on that same "
+        "instance (observe: call / get_folded_weights / unfold_model / "
+        "model_save_quantized_weights; mutate: set_weights of a new drawn "
+        "parameter set with unchanged iteration, assign to kernel / bias / "
+        "gamma / beta / moving_mean / moving_variance), observations "
+        "repeated at the end; non-trivial if it has a mutation. Otherwise "
+        "non-trivial = the oracle "
         "compared outputs (no crash) and at least one BN statistic of a "
         "folded layer differs from the identity (gamma!=1, beta!=0, "
         "mean!=0 or var!=1) and the reference output is not all zero; "
@@ -75,7 +88,9 @@ REQUIRED_LABELS = {
               "var_tiny", "mean_large", "use_bias:False", "scale:False",
               "center:False", "pad:same", "strided", "dilated",
               "unfold_checked", "fold_list_checked", "quantize_fold_checked",
-              "tmpl:branched", "not_folded_conv_present"],
+              "tmpl:branched", "not_folded_conv_present", "hyp_history",
+              "history_checked", "hist:set_weights", "hist:assign",
+              "hist:unfold", "hist:gfw"],
 }
 REQUIRED_LABELS["thorough"] = REQUIRED_LABELS["quick"]
 
@@ -651,11 +666,235 @@ def model_labels(case, st, src):
 
 
 # --------------------------------------------------------------------------
+# histories on one folded model instance
+
+
+def _fold32(cls, p, eps):
+  """Folded tensors in float32 with TensorFlow ops in the documented order
+  (rsqrt(var+eps) * gamma, then * kernel / * (bias-mean) + beta): quantizer
+  input that does not go through get_folded_weights()."""
+  import tensorflow as tf  # pylint: disable=g-import-not-at-top
+  inv = tf.math.rsqrt(tf.constant(p["var"]) + eps)
+  if p["gamma"] is not None:
+    inv = inv * tf.constant(p["gamma"])
+  b = tf.constant(p["bias"]) if p["bias"] is not None else 0
+  bf = inv * (b - tf.constant(p["mean"]))
+  if p["beta"] is not None:
+    bf = bf + tf.constant(p["beta"])
+  k = tf.constant(p["kernel"])
+  if cls == "dw":
+    inv = tf.reshape(inv, [k.shape[2], k.shape[3]])
+  return (inv * k).numpy(), bf.numpy()
+
+
+def _fw_args(p):
+  return (p["kernel"], p["bias"], p["gamma"], p["beta"], p["mean"], p["var"])
+
+
+def oracle_history(case, st):
+  import contextlib  # pylint: disable=g-import-not-at-top
+  import io  # pylint: disable=g-import-not-at-top
+  from qkeras import bn_folding_utils  # pylint: disable=g-import-not-at-top
+  from qkeras.utils import model_save_quantized_weights  # pylint: disable=g-import-not-at-top
+  fails = []
+  node = case["nodes"][0]
+  cls = node["op"][1:]
+  g = node["geom"]
+  eps = node["eps"]
+  cin = case["input"][2]
+  opts = {"center": node["center"]}
+  strides, dil = (g["sh"], g["sw"]), (g["dh"], g["dw"])
+  relu = ((lambda r: np.maximum(r, 0.0)) if node["act"] == "relu"
+          else (lambda r: r))
+  kernel, bias = G.layer_tensors(node, cin)
+  gamma, beta, mean, var = G.bn_tensors(node)
+  cur = {"kernel": kernel, "bias": bias, "gamma": gamma, "beta": beta,
+         "mean": mean, "var": var}
+  earlier = []
+  state = {"after": "none", "n": 0}
+
+  def add(clause, detail, stale=None):
+    sig = {"clause": clause, "cls": cls, "after": state["after"]}
+    if stale is not None:
+      sig["stale"] = stale
+    fails.append(("history", sig, "step %d: %s" % (state["n"], detail)))
+
+  def weights_vs_current(lk, lb, clause):
+    okk, okb, d, _, _, _ = check_folded_weights(cls, lk, lb, *_fw_args(cur),
+                                                eps=eps)
+    if okk and okb:
+      return True
+    stale = False
+    for old in earlier:
+      o = check_folded_weights(cls, lk, lb, *_fw_args(old), eps=eps)
+      if o[0] and o[1]:
+        stale = True
+        break
+    add(clause, ("equal to the folded weights of EARLIER parameters; "
+                 if stale else "") + d, stale)
+    return False
+
+  try:
+    try:
+      m = G.build_model(case)
+      layer = m.get_layer(node["name"])
+    except Exception as e:  # pylint: disable=broad-except
+      return [_lib_exc(e, "call", opts)]
+    x = G.input_tensor(case)
+
+    def obs_call():
+      try:
+        y = _predict(m, x)[0]
+      except Exception as e:  # pylint: disable=broad-except
+        fails.append(_lib_exc(e, "call", opts))
+        return
+      if node["kq"] is None and node["bq"] is None:
+        ref, mag = R.conv_bn(cls, x, cur["kernel"], cur["bias"], cur["gamma"],
+                             cur["beta"], cur["mean"], cur["var"], eps,
+                             strides, g["pad"], dil)
+        res = [_cmp(y, relu(ref), mag)]
+      else:
+        kf, bf, _ = R.fold(cls, *_fw_args(cur), eps=eps)
+        res = []
+        for sk, sb in (_fold32(cls, cur, eps),
+                       (kf.astype(np.float32), bf.astype(np.float32))):
+          ref, mag = R.conv_bias(cls, x, _quantize(node["kq"], sk),
+                                 _quantize(node["bq"], sb), strides, g["pad"],
+                                 dil)
+          res.append(_cmp(y, relu(ref), mag))
+          if not res[-1][0]:
+            break
+      if all(r[0] for r in res):
+        add("output", res[0][2])
+
+    def obs_gfw():
+      try:
+        lk, lb = [np.asarray(t) for t in layer.get_folded_weights()]
+      except Exception as e:  # pylint: disable=broad-except
+        fails.append(_lib_exc(e, "get_folded_weights", opts))
+        return
+      weights_vs_current(lk, lb, "folded_weights")
+
+    def obs_unfold():
+      try:
+        u = bn_folding_utils.unfold_model(m)
+        w = u.get_layer(node["name"]).get_weights()
+        yu = _predict(u, x)
+        ym = _predict(m, x)
+      except Exception as e:  # pylint: disable=broad-except
+        fails.append(_lib_exc(e, "unfold_model", opts))
+        return
+      st["unfolds"] = st.get("unfolds", 0) + 1
+      if len(w) != 2:
+        add("unfold_weights", "%d weights" % len(w))
+      else:
+        weights_vs_current(w[0], w[1], "unfold_weights")
+      bad, d, _ = _cmp_models(yu, ym)
+      if bad:
+        add("unfold_predictions", d)
+
+    for stp in case["steps"]:
+      state["n"] += 1
+      op = stp["op"]
+      if op == "call":
+        obs_call()
+      elif op == "gfw":
+        obs_gfw()
+      elif op == "unfold":
+        obs_unfold()
+      elif op == "save_qweights":
+        try:
+          with contextlib.redirect_stdout(io.StringIO()):
+            model_save_quantized_weights(m)
+        except Exception as e:  # pylint: disable=broad-except
+          fails.append(_lib_exc(e, "model_save_quantized_weights", opts))
+      elif op == "set_weights":
+        nk, nb = G.layer_tensors(dict(node, wseed=stp["wseed"],
+                                      kscale=stp["kscale"]), cin)
+        ng, nbt, nm, nv = G.bn_tensors(dict(node, bn=stp["bn"]))
+        new = {"kernel": nk, "bias": nb, "gamma": ng, "beta": nbt,
+               "mean": nm, "var": nv}
+        lst = []
+        for wv in layer.weights:
+          leaf = wv.name.split("/")[-1].split(":")[0]
+          key = {"kernel": "kernel", "depthwise_kernel": "kernel",
+                 "bias": "bias", "gamma": "gamma", "beta": "beta",
+                 "moving_mean": "mean", "moving_variance": "var"}.get(leaf)
+          if key is None:
+            if leaf != "iteration":
+              raise core.HarnessError("unexpected weight %s" % wv.name)
+            lst.append(wv.numpy())          # step counter unchanged
+          else:
+            lst.append(new[key])
+        layer.set_weights(lst)
+        earlier.append(dict(cur))
+        cur.update(new)
+        state["after"] = "set_weights"
+        st["mutations"] = st.get("mutations", 0) + 1
+      elif op == "assign":
+        what = stp["what"]
+        if cur[what] is None:        # no such variable (use_bias/center/scale)
+          continue
+        if "vals" in stp:
+          val = np.asarray(stp["vals"], dtype=np.float32)
+        else:
+          rs = np.random.RandomState(stp["seed"])
+          val = (rs.standard_normal(cur[what].shape) *
+                 (node["kscale"] if what == "kernel" else 1.0)
+                 ).astype(np.float32)
+        var_ = {"kernel": (layer.kernel if cls == "conv" else
+                           layer.depthwise_kernel),
+                "bias": layer.bias, "gamma": layer.batchnorm.gamma,
+                "beta": layer.batchnorm.beta,
+                "mean": layer.batchnorm.moving_mean,
+                "var": layer.batchnorm.moving_variance}[what]
+        var_.assign(val)
+        earlier.append(dict(cur))
+        cur[what] = val
+        state["after"] = "assign:" + what
+        st["mutations"] = st.get("mutations", 0) + 1
+      else:
+        raise core.HarnessError("unknown step %r" % op)
+    # final observations for the current parameters
+    state["n"] += 1
+    obs_call()
+    obs_gfw()
+    obs_unfold()
+    st["history_checked"] = True
+    # one entry per bucket
+    seen, out = set(), []
+    for f in fails:
+      k = core.fkey(f[0], f[1])
+      if k not in seen:
+        seen.add(k)
+        out.append(f)
+    return out
+  finally:
+    import tensorflow as tf  # pylint: disable=g-import-not-at-top
+    tf.keras.backend.clear_session()
+    core.reset_globals()
+
+
+def history_labels(case, st, src):
+  node = case["nodes"][0]
+  labs = [src, "cls:" + node["op"][1:], "mode:" + node["mode"],
+          "center:%s" % node["center"], "kq:" + _fam(G.KQ_INV, node["kq"])]
+  for stp in case["steps"]:
+    labs.append("hist:" + stp["op"])
+  labs.append("hist_len:%d" % min(len(case["steps"]), 10))
+  if st.get("history_checked"):
+    labs.append("history_checked")
+  labs = sorted(set(labs), key=labs.index)
+  return labs, bool(st.get("history_checked") and st.get("mutations"))
+
+
+# --------------------------------------------------------------------------
 
 
 ORACLES = {"layer": (oracle_layer, layer_labels),
            "unfold": (oracle_unfold, model_labels),
-           "quantize": (oracle_quantize, model_labels)}
+           "quantize": (oracle_quantize, model_labels),
+           "history": (oracle_history, history_labels)}
 
 
 def evaluate(ctx, case, src):
@@ -668,7 +907,8 @@ def evaluate(ctx, case, src):
 
 
 def run(ctx):
-  lat = G.lattice_cases(ctx.tier) + G.fixed_model_cases()
+  lat = (G.fixed_history_cases() + G.lattice_cases(ctx.tier) +
+         G.fixed_model_cases())
   ctx.info["lattice_size"] = len(lat) if ctx.idx == 0 else 0
   for case in ctx.shard(lat):
     for sc, sig, d in evaluate(ctx, case, "lattice"):
